@@ -60,6 +60,15 @@ func baseEnv(extra []string) []string {
 		env = append(env, kv)
 	}
 	env = append(env, "GOFLAGS=-mod=mod", "GOPROXY=off", "GOTOOLCHAIN=local", "GOWORK=off")
+	// make sure the default go command comes first on PATH (a parent `go test`
+	// of a switched toolchain prepends its own bin directory)
+	if g := os.Getenv("VERIF_GO"); g != "" {
+		for i, kv := range env {
+			if strings.HasPrefix(kv, "PATH=") {
+				env[i] = "PATH=" + filepath.Dir(g) + string(os.PathListSeparator) + strings.TrimPrefix(kv, "PATH=")
+			}
+		}
+	}
 	return append(env, extra...)
 }
 
